@@ -288,8 +288,10 @@ CHECKS["C15"] = {
     "level": "exploration",
     "shards": {"quick": 16, "thorough": 32},
     "budget": {"quick": 50, "thorough": 420},
-    "rule": "six workloads (expression-sized arrays, bit-fields+enums incl. dumping, unions with member assignment, "
-            "dereferenced pointers, nested arrays of structures with null-terminated wchar, LEB128 parse+dump) x "
+    "rule": "ten workloads (expression-sized arrays, bit-fields+enums incl. dumping, unions with member assignment, "
+            "dereferenced pointers, nested arrays of structures with null-terminated wchar, LEB128 parse+dump, "
+            "wchar/multi-dimensional/expression tails, null-terminated arrays of structures, unknown enum/flag values "
+            "(pseudo-members created while threads interleave), parse + construct-and-dump + default construction) x "
             "{compiled, interpreted}; 2-3 threads run jobs on independent streams with shared type objects under a "
             "deterministic scheduler that makes every source line of the library (thorough: every bytecode instruction "
             "of expression.py/bitbuffer.py) a yield point; ALL single-preemption schedules (both starting threads) are "
@@ -302,7 +304,8 @@ CHECKS["C15"] = {
                        "types/pointer.py:Pointer.dereference", "types/structure.py:Union._rebuild", "<compiled>"],
     "required_cells": ["workload:expr:compiled", "workload:expr:interpreted", "workload:bits:compiled",
                        "workload:union:interpreted", "workload:ptr:compiled", "workload:nested:interpreted",
-                       "workload:leb:compiled"],
+                       "workload:leb:compiled", "workload:wide:interpreted", "workload:nullstructs:compiled",
+                       "workload:enums:interpreted", "workload:dumpmix:compiled"],
     "assumptions": ASSUME_COMMON + ["context switches are modelled at source-line granularity (CPython can switch "
                                     "between bytecodes; thorough adds instruction granularity for the evaluator and the "
                                     "bit buffer)"],
